@@ -291,12 +291,29 @@ def do_case(ctx, case):
                        dict(case, result=r[1]) if len(ctx.nt_keys) % 1500 == 19 else None)
 
 
+def siblings(case, draw):
+    """The same text again for a sibling of the event (other letter case, another family, another gender / prec): an
+    answer must not be carried over from the previous call."""
+    e = case['event']
+    out = []
+    for ev in (e.swapcase(), e.lower(), COMMON[draw(len(COMMON))]):
+        if ev != e:
+            out.append(dict(case, event=ev))
+    out.append(dict(case, gender=GENDERS[draw(len(GENDERS))], prec=PRECS[draw(len(PRECS))]))
+    return out
+
+
 def shard(ctx, payload):
     n = payload
     g = codegen.Gen(codes.PAT_EVENT_CODE, 'PAT_EVENT_CODE')
     rng = random.Random(derive_seed(ctx.seed, 'C12', ctx.shard))
-    for _ in range(n):
-        do_case(ctx, make_case(g, rng.randrange))
+    for i in range(n):
+        case = make_case(g, rng.randrange)
+        do_case(ctx, case)
+        if i % 5 == 0:
+            for sib in siblings(case, rng.randrange):
+                do_case(ctx, sib)
+                ctx.label('sibling-call')
 
 
 def shrink(bucket):
